@@ -595,3 +595,21 @@ Definition rollback_raises (ord : name -> list name) (d : doc) (es : list event)
   | Crashed st _ _ => bool_decide (rollback ord 0 st = None)
   | Finished _ => false
   end.
+
+(* ---------------------------------------------------------------------------------------------------------- *)
+(* REPAIRED BulkUpdateRecord (notes/proposed_fixes/C04-BulkUpdateRecord-undo-first.diff): every column is resolved and
+   the undo action is appended BEFORE the first cell is written. *)
+Definition update_steps_repaired (tb : table) (t : name) (rows : list rowid) (vals : list (name * list val))
+  : list mstep :=
+  if bool_decide (length (known_prefix tb vals) = length vals)
+  then MUndo (BulkUpdateRecord t rows
+                (omap (fun cv => (fun col => (cv.1, map (cget col) rows)) <$> t_cols tb !! cv.1) vals))
+       :: concat (map (cell_steps t rows) vals)
+  else [MFail].
+
+Definition update_repaired (d : doc) (t : name) (rows : list rowid) (vals : list (name * list val)) : list mstep :=
+  match d_tables d !! t with
+  | None => [MFail]
+  | Some tb => if bool_decide (Forall (fun r => r ∈ t_rows tb) rows) then update_steps_repaired tb t rows vals
+               else [MFail]
+  end.
